@@ -31,7 +31,7 @@ void pat_fill(uint8_t *dst, uint32_t b, uint64_t off, uint64_t len);
 uint8_t *huge_window(uint32_t b); /* 4 GiB + window of virtual memory repeating pattern buffer b (period 2^20) */
 
 /* ---------- guarded buffers ---------- */
-enum { PL_END = 0, PL_START = 1, PL_MID = 2 };
+enum { PL_END = 0, PL_START = 1, PL_MID = 2, PL_4G = 3, PL_AT4G = 4 };
 typedef struct gbuf {
         uint8_t *p;      /* user pointer */
         size_t len;
